@@ -74,7 +74,169 @@ def cutClass (h : SerArgs) (slen : Nat) : String :=
   if slen = 0 then "empty" else if slen < req then (if slen % h.B = 0 then "cut@word" else "cut@byte")
   else if slen = req then "exact" else "longer"
 
+/-! ### `hist`: statement histories over several variables and one stream (the receiving object has a past)
+
+`hist <mode> <w> <n> <m> <cls> <K> <imode> <src…K> <init…K·nm> <ns> (<code> <a> <b> <x>)×ns
+   => (<r1> <r2> <contents of all K variables…K·nm>)×ns  [mode 0: <total> <bytes…total>]`
+mode 0 raw reader/writer on one `std::stringstream`, 1/2/3 cereal binary / portable binary / JSON (one output archive,
+then one input archive); `src` = -1 independently constructed, `j` = copy of variable `j` (poly_p: shares its storage);
+steps 0 write a, 1 read a, 2 copy a ← b, 3 element store a[b] = x. -/
+
+structure HistArgs where
+  mode : Nat
+  h : SerArgs
+  isP : Bool
+  K : Nat
+  srcs : List Int
+  init : List (List Nat)
+  prog : List HStep
+
+def decodeStep (h : SerArgs) (K : Nat) (l : List Int) : Option HStep :=
+  match l with
+  | [c, a, b, x] =>
+    if a < 0 || a.toNat ≥ K || b < 0 || x < 0 then none
+    else if c == 0 then some (.write a.toNat)
+    else if c == 1 then some (.read a.toNat)
+    else if c == 2 then (if b.toNat < K then some (.copy a.toNat b.toNat) else none)
+    else if c == 3 then (if b.toNat < h.nm && x < (2 : Int) ^ h.w then some (.poke a.toNat b.toNat x.toNat) else none)
+    else none
+  | _ => none
+
+def histArgs (a : List Int) : Option HistArgs :=
+  match a with
+  | mode :: a' => do
+    let h ← serHead a'
+    let cls ← a'[3]?
+    match h.rest with
+    | k :: _imode :: r =>
+      if k ≤ 0 || mode < 0 || mode > 3 then none
+      let K := k.toNat
+      let (srcs, r) ← splitAtExact K r
+      let (init, r) ← splitAtExact (K * h.nm) r
+      if !allWord h.w init then none
+      if !((List.range K).all fun i => match srcs[i]? with | some s => s == -1 || (0 ≤ s && s.toNat < i) | none => false) then none
+      match r with
+      | ns :: st =>
+        if ns < 0 || st.length != 4 * ns.toNat then none
+        let prog ← (chunks 4 ns.toNat st).mapM (decodeStep h K)
+        some { mode := mode.toNat, h := h, isP := cls == 1, K := K, srcs := srcs,
+               init := chunks h.nm K (natsOf init), prog := prog }
+      | _ => none
+    | _ => none
+  | _ => none
+
+/-- a cereal archive reports neither a byte count nor `gcount()` -/
+def histObs (mode : Nat) (st : HStep) (o : Nat × Nat) : List Int :=
+  if mode == 0 then [(o.1 : Int), (o.2 : Int)] else
+  match st with
+  | .read _ => [(o.1 : Int), 0]
+  | _ => [0, 0]
+
+def histOut (mode : Nat) (prog : List HStep) (tr : List ((Nat × Nat) × List (List Nat))) : List Int :=
+  (prog.zip tr).flatMap fun (st, o, hs) => histObs mode st o ++ intsN hs.flatten
+
+/-- bytes appended to the stream, byte-level model -/
+def writtenH (w len : Nat) : List HStep → HState → List Nat
+  | [], _ => []
+  | st :: r, s =>
+    (match st with
+     | .write i => if s.failed then [] else serialize w (getH s.hs i)
+     | _ => []) ++ writtenH w len r (stepH w len s st)
+
+/-- words handed to the writer, value level -/
+def writtenV : List HStep → VHState → List Nat
+  | [], _ => []
+  | st :: r, s =>
+    (match st with
+     | .write i => if s.failed then [] else getH s.hs i
+     | _ => []) ++ writtenV r (stepHV s st)
+
+/-- coverage class: with how many other handles does the variable share its storage when it is read into / written
+(alias classes as the library forms them: a copy shares, every non-const access un-shares) -/
+def histClass (a : HistArgs) : String :=
+  let ids0 : List Nat := (List.range a.K).foldl (fun ids i =>
+    match a.srcs[i]? with
+    | some s => if s < 0 then ids ++ [i] else ids ++ [ids.getD s.toNat i]
+    | none => ids ++ [i]) []
+  let shared (ids : List Nat) (i : Nat) : Nat := (ids.filter (· == ids.getD i 0)).length - 1
+  let fresh (ids : List Nat) (i nxt : Nat) : List Nat := if shared ids i > 0 then ids.set i nxt else ids
+  -- (ids, next id, max sharing at a read, reads into shared storage, max sharing at a write, reads, writes)
+  let r := a.prog.foldl (fun (acc : List Nat × Nat × Nat × Nat × Nat × Nat × Nat) st =>
+    let (ids, nxt, mr, nr, mw, rd, wr) := acc
+    match st with
+    | .write i => (fresh ids i nxt, nxt + 1, mr, nr, max mw (shared ids i), rd, wr + 1)
+    | .read j => (fresh ids j nxt, nxt + 1, max mr (shared ids j), nr + (if shared ids j > 0 then 1 else 0), mw, rd + 1, wr)
+    | .copy d s => (ids.set d (ids.getD s 0), nxt, mr, nr, mw, rd, wr)
+    | .poke d _ _ => (fresh ids d nxt, nxt + 1, mr, nr, mw, rd, wr))
+    (ids0, a.K, 0, 0, 0, 0, 0)
+  let (_, _, mr, nr, mw, rd, wr) := r
+  let v0 : VHState := ⟨a.init, [], false⟩
+  let pastEnd := (traceHV 1 a.prog v0).zip a.prog |>.any fun (o, st) =>
+    match st with | .read _ => o.1.1 == 1 | _ => false
+  let modeS := ["raw", "cereal-binary", "cereal-portable", "cereal-JSON"].getD a.mode "?"
+  let tag :=
+    if !a.isP then (if rd > 0 then "read-into-used-object" else "write-only")
+    else if rd > 0 then
+      (if mr == 0 then "read-into-unshared" else s!"read-into-shared-with-{min mr 4}" ++ (if nr ≥ 2 then ":back-to-back" else ""))
+    else if wr > 0 then (if mw == 0 then "write-unshared" else s!"write-shared-with-{min mw 4}")
+    else "no-io"
+  s!"{modeS}:" ++ (if a.isP then "poly_p:" else "poly:") ++ tag ++ (if pastEnd then ":past-end" else "")
+
+def histExpected (a : HistArgs) : List Int :=
+  let v0 : VHState := ⟨a.init, [], false⟩
+  histOut a.mode a.prog (traceHV (a.h.nm * a.h.B) a.prog v0)
+
+/-- first statement after which some variable does not hold what the value reading of the history says -/
+def histWhy (a : HistArgs) (impl : List Int) : String :=
+  let v0 : VHState := ⟨a.init, [], false⟩
+  let tr := traceHV (a.h.nm * a.h.B) a.prog v0
+  let rec go (k : Nat) (prog : List HStep) (tr : List ((Nat × Nat) × List (List Nat))) (impl : List Int) : String :=
+    match prog, tr with
+    | st :: ps, (o, hs) :: ts =>
+      let obs := impl.take 2
+      let got := chunks a.h.nm a.K ((impl.drop 2).take (a.K * a.h.nm))
+      let stS := match st with
+        | .write i => s!"write of variable {i}"
+        | .read j => s!"read into variable {j}"
+        | .copy d s => s!"copy {d} <- {s}"
+        | .poke d i _ => s!"element store {d}[{i}]"
+      let bad := (List.range a.K).filter fun i => got[i]? != (hs[i]?).map intsN
+      if !bad.isEmpty then
+        let recv := match st with | .read j => some j | .copy d _ => some d | .poke d _ _ => some d | _ => none
+        let others := bad.filter fun i => some i != recv
+        s!"statement {k} ({stS}): " ++
+          (if !others.isEmpty then s!"variable(s) {others} changed although the statement does not assign them (value semantics)"
+           else s!"variable {bad} does not hold the expected polynomial")
+      else if obs != histObs a.mode st o then s!"statement {k} ({stS}): reported {obs}, expected {histObs a.mode st o}"
+      else go (k + 1) ps ts (impl.drop (2 + a.K * a.h.nm))
+    | _, _ => "bytes written differ from the documented layout of the polynomials handed to the writer"
+  go 0 a.prog tr impl
+
 def serialHandlersP : List (String × PHandler) := [
+  ("hist", {
+    run := fun args => do
+      let a ← histArgs args
+      let s0 : HState := ⟨a.init, [], false⟩
+      let model :=
+        if a.mode == 0 then
+          let bytes := writtenH a.h.w a.h.nm a.prog s0
+          histOut 0 a.prog (traceH a.h.w a.h.nm a.prog s0) ++ [(bytes.length : Int)] ++ intsN bytes
+        else histExpected a   -- cereal is a contract: only the value-level reading is available
+      some { model := model, specOk := true, cls := histClass a },
+    spec := fun args impl => do
+      let a ← histArgs args
+      let exp := histExpected a
+      if a.mode == 0 then
+        let (body, tl) ← splitAtExact exp.length impl
+        match tl with
+        | total :: bytes =>
+          some (body == exp && total == (bytes.length : Int) && allByte bytes &&
+                layoutOk a.h.B (writtenV a.prog ⟨a.init, [], false⟩) bytes)
+        | [] => some false
+      else some (impl == exp),
+    why := fun args impl => match histArgs args with
+      | some a => histWhy a impl
+      | none => "" }),
   ("ser", {
     run := fun a => do
       let h ← serHead a
